@@ -1,6 +1,6 @@
 import HermesModel.Calendar
-import HermesModel.Proto
-import HermesModel.Partition
 import HermesModel.Generated.Facts
 import HermesModel.Num
+import HermesModel.Partition
+import HermesModel.Proto
 import HermesModel.Water
